@@ -415,7 +415,7 @@ theorem spellings_example :
 spelling before touching the worksheet: P `prepareCell` (all setters), G
 `getCellStringFunc` (GetCellValue/Formula/Type), D direct decode (GetCellStyle,
 SetCellStyle, AddPicture/GetPictures, form controls), R `GetCellRichText`,
-H-set / H-get (hyperlinks, behind a `SplitCellName` gate), C-add / C-del (comments,
+H-set / H-get (hyperlinks: `SplitCellName` gate, then `mergeCellsParser`), C-add / C-del (comments,
 canonical reference since the repair). -/
 
 /-- **full strength, eight paths**: every accepted spelling is mapped by every path to
@@ -440,7 +440,7 @@ theorem paths_canonical (s : List Char) (ci ri : Int) (h : cellNameToCoordinates
   · unfold pathDirect; simp only [h]
   · unfold pathRichGet pathPrepare; simp only [hm, hdec]
   · unfold pathLinkSet; simp only [hq, hm]
-  · unfold pathLinkGet; simp only [hq, h, hcanon]
+  · unfold pathLinkGet; simp only [hq, hm]
   · unfold pathCommentAdd; simp only [h, hcanon]
   · unfold pathCommentDel pathCommentAdd; simp only [h, hcanon]
 
@@ -502,7 +502,7 @@ theorem paths_accept_iff_a1 (s : List Char) :
     split at h
     · simp at h
     · split at h
-      · rename_i c r hd; exact viaDirect hd
+      · rename_i canon hm; exact viaMerge hm
       · simp at h
   · intro hp; obtain ⟨ci, ri, hd⟩ := back hp
     obtain ⟨_, _, _, _, _, _, _, h1⟩ := paths_canonical s ci ri hd; simp [h1]
